@@ -25,7 +25,7 @@ func init() {
 		Modules: []string{""},
 		Explanation: "Table/exhaustiveness rules on commentparser/language (relations read by constant propagation over the table functions, not executed) and path/typestate rules on the lexer: (R18.1) every comment style that has a delimiter row is returned by commentStyle for some language, and every language style has some delimiter; " +
 			"(R18.2) for all 47 languages a multi-line start delimiter exists iff an end delimiter exists; (R18.3) singleLineComment and multiLineComment consult the same fallback languages; (R18.4) consumption typestate on lex: no rune is consumed right after a delimiter was consumed without being examined; " +
-			"(R18.5) every cycle of lex and match passes a consuming call; (R18.6) the ChunkIterator goroutine closes its channel on all paths and is the only sender; (R18.7) raw (backquote) strings have no escape character; (R18.8) the text that is lexed is the input itself plus at most a terminating newline (so line numbers are those of the file); (R18.9) the contents of a string literal are recorded as a comment only behind a successful match of a triple quote. " +
+			"(R18.5) every cycle of lex and match passes a consuming call; (R18.6) the ChunkIterator goroutine closes its channel on all paths and is the only sender; (R18.7) raw (backquote) strings have no escape character; (R18.8) the text that is lexed is the input itself plus at most a terminating newline (so line numbers are those of the file); (R18.9) the contents of a string literal are recorded as a comment only behind a successful match of a triple quote; (R18.10) every rune consumed in the loop that collects a doc string is added to its text. " +
 			"Necessary conditions of agreeing with a reference lexer; agreement on all strings and the chunk grouping arithmetic are not decided. Boolean flags that record how a loop was left are followed path-sensitively. R18.4 failed on the pinned tree at four (read, origin) pairs (D8a, D8b), repaired since.",
 		Run: runC18,
 	})
@@ -534,4 +534,61 @@ func checkDocStringFlag(c *Ctx, p *core.Prog, fns []*ssa.Function, cfg eng.LexCo
 		}
 	}
 	c.R.Count("R18.9:flag-guarded comment literals", n)
+
+	// R18.10: the text of a doc string is what stands between the quotes: in the loop that collects it, every rune that
+	// is consumed is also written to the collecting buffer (no rune - e.g. the backslash of an escape - is eaten).
+	for _, f := range fns {
+		for _, call := range core.CallsIn(f) {
+			if core.StaticCalleeName(call.Common()) != "(*bytes.Buffer).WriteRune" {
+				continue
+			}
+			// a write under a boolean flag (the doc-string flag)
+			flagged := false
+			for _, fct := range core.FactsAtInstr(call) {
+				if ph, ok := fct.Cond.(*ssa.Phi); ok && fct.Truth && isBool(ph.Type()) {
+					flagged = true
+				}
+			}
+			if !flagged {
+				continue
+			}
+			buf := call.Common().Args[0]
+			// the innermost loop that contains the write
+			var h *ssa.BasicBlock
+			for d := call.Block(); d != nil && h == nil; d = d.Idom() {
+				for _, pr := range d.Preds {
+					if d.Dominates(pr) && reaches(call.Block(), d) {
+						h = d
+					}
+				}
+			}
+			if h == nil {
+				continue
+			}
+			nReads, eaten := 0, ""
+			for _, rc := range core.CallsIn(f) {
+				if rc.Common().StaticCallee() != cfg.Read || !h.Dominates(rc.Block()) || !reaches(rc.Block(), h) {
+					continue
+				}
+				nReads++
+				v := rc.Value()
+				written := false
+				if v != nil {
+					for _, r := range *v.Referrers() {
+						if wc, ok := r.(*ssa.Call); ok && core.StaticCalleeName(&wc.Call) == "(*bytes.Buffer).WriteRune" && wc.Call.Args[0] == buf {
+							written = true
+						}
+					}
+				}
+				if !written {
+					eaten = p.Pos(rc.Pos())
+				}
+			}
+			if nReads == 0 {
+				continue
+			}
+			c.R.Check(eaten == "", "R18.10", "lex: every rune consumed while a doc string is collected is added to its text", p.Pos(call.Pos()), fmt.Sprintf("%d reads in the collecting loop, each written to the buffer", nReads),
+				"a rune is consumed in the collecting loop without being written to the doc string's text (at "+eaten+"): the reported text is not the text between the quotes (backslashes are lost)")
+		}
+	}
 }
